@@ -422,7 +422,7 @@ PROP = {
             "vmgr: which of several waiting visitors gets an address that became free is Go's map order; the engine starts "
             "the ones the implementation reports first (the model refuses those that cannot start) and then completes the pass; "
             "a pass that runs after Close (stopCh and the ticker both ready) is followed by the model the same way and then "
-            "judged by the clause `a closed manager holds no address` (known finding above); the states between two "
+            "judged by the clause `a closed manager holds no address` (finding C19-visitor-started-after-close, repaired by ea20320); the states between two "
             "passes of the loop are covered by the theorems (every tryStart / squat / free interleaving), the engine observes "
             "pass-stable states only; the keeper's period is 1.5 ms in the engine, so `nothing configured for at least one "
             "tick` is one op",
